@@ -7,11 +7,11 @@ CONSTANTS
   Dev_ownerAbsent = FALSE
   Dev_length = FALSE
   Dev_tableCache = TRUE
-  Dev_identity = TRUE
-  Dev_emBelowV4 = TRUE
-  Dev_encDirect = TRUE
-  Dev_sig = TRUE
-  Dev_cryptNoParams = TRUE
+  Dev_identity = FALSE
+  Dev_emBelowV4 = FALSE
+  Dev_encDirect = FALSE
+  Dev_sig = FALSE
+  Dev_cryptNoParams = FALSE
   Emit = FALSE
 INVARIANTS AuthUserSound AuthUserComplete AuthOwnerSound AuthOwnerComplete KeyAgreement NoKeyWithoutAuth Plaintext Shapes ImplDictRefines ImplKeyRefines ImplItemRefines ImplOpens ImplRejects LengthAgreement ImplLengthRefines ImplItemClasses FormAgreement ImplFormRefines ImplPrepRefines PrepMatters PrepIsFunction EmitInv
 CHECK_DEADLOCK FALSE
